@@ -1,6 +1,7 @@
 package main
 
 import (
+	"bytes"
 	"encoding/json"
 	"errors"
 	"fmt"
@@ -134,6 +135,7 @@ var afterClass = map[string]string{
 }
 
 type siteResult struct {
+	base      int64 // index of the faulted operation's first lower-layer call
 	delivered []inject.Call
 	outcome   string // error | absorbed | panic | hang | none
 	errored   bool
@@ -373,6 +375,22 @@ func (rn *runner) runOnce(st *site) (res siteResult, lr *learned, fatal error) {
 		return true, c.LastErr()
 	}
 
+	// waitQuiet (Long histories only) waits until the background work started by the operations so
+	// far (encrypt's meta compaction) has ended: no goroutine is inside perkeep's storage code any
+	// more.  Its lower-layer calls are thereby counted with, and faulted as part of, the operation
+	// that started it, and it never overlaps a later operation (a re-open while the previous
+	// instance is still compacting would be a harness-made race).
+	waitQuiet := func() {
+		if !rn.def.Long {
+			return
+		}
+		for t := 0; t < 10000; t++ {
+			if goroutinesInStorageCode() == 0 {
+				return
+			}
+			time.Sleep(500 * time.Microsecond)
+		}
+	}
 	lr = &learned{}
 	for i, o := range h.Ops {
 		if c.Dead {
@@ -387,6 +405,7 @@ func (rn *runner) runOnce(st *site) (res siteResult, lr *learned, fatal error) {
 			in.plan.ResetLog()
 		}
 		if st != nil && i == st.Op {
+			res.base = a
 			for _, f := range st.Faults {
 				in.plan.Fault(a+f.Off, f.Mode)
 			}
@@ -394,6 +413,9 @@ func (rn *runner) runOnce(st *site) (res siteResult, lr *learned, fatal error) {
 			phase = "faulted"
 			faultedOp = o.String()
 			completed, err := exec(o, true)
+			if !c.Dead {
+				waitQuiet()
+			}
 			in.plan.Clear()
 			for _, cl := range in.plan.Log() {
 				if cl.Mode != "" {
@@ -454,6 +476,9 @@ func (rn *runner) runOnce(st *site) (res siteResult, lr *learned, fatal error) {
 		}
 		exec(o, false)
 		executed++
+		if !c.Dead {
+			waitQuiet()
+		}
 		if st == nil {
 			b := in.plan.Calls()
 			lr.N = append(lr.N, b-a)
@@ -467,6 +492,7 @@ func (rn *runner) runOnce(st *site) (res siteResult, lr *learned, fatal error) {
 	if !c.Dead {
 		if st != nil && h.Ops[st.Op].Kind != "reopen" {
 			exec(h.Ops[st.Op], false)
+			waitQuiet()
 		}
 		for _, r := range touched {
 			for _, b := range h.Universe {
@@ -510,6 +536,7 @@ func (rn *runner) runOnce(st *site) (res siteResult, lr *learned, fatal error) {
 			break
 		}
 		phase = "recovery:" + rc.Name
+		waitQuiet()
 		ns, err, ok := guardedCall(rc.Name, 60*time.Second, rc.Run)
 		if !ok {
 			break
@@ -555,8 +582,37 @@ func (rn *runner) runOnce(st *site) (res siteResult, lr *learned, fatal error) {
 	return res, lr, nil
 }
 
+// goroutinesInStorageCode counts the goroutines that have a frame of perkeep's storage
+// packages on their stack.
+func goroutinesInStorageCode() int {
+	stackMu.Lock()
+	defer stackMu.Unlock()
+	if stackBuf == nil {
+		stackBuf = make([]byte, 1<<20)
+	}
+	buf := stackBuf[:runtime.Stack(stackBuf, true)]
+	n := 0
+	for len(buf) > 0 {
+		g := buf
+		if i := bytes.Index(buf, []byte("\n\n")); i >= 0 {
+			g, buf = buf[:i], buf[i+2:]
+		} else {
+			buf = nil
+		}
+		if bytes.Contains(g, []byte("perkeep.org/pkg/blobserver/")) {
+			n++
+		}
+	}
+	return n
+}
+
+var (
+	stackMu  sync.Mutex
+	stackBuf []byte
+)
+
 // waitStates are the goroutine states of a goroutine that waits for another one.
-var waitStates = []string{"semacquire", "chan receive", "chan send", "select", "sync.Mutex.Lock", "sync.RWMutex", "sync.Cond.Wait", "sync.WaitGroup.Wait"}
+var waitStates = []string{"sleep", "semacquire", "chan receive", "chan send", "select", "sync.Mutex.Lock", "sync.RWMutex", "sync.Cond.Wait", "sync.WaitGroup.Wait"}
 
 // blockedInPerkeep returns (at most 4) goroutines that are in a wait state with perkeep
 // frames on their stack, "" if there are none.
@@ -609,7 +665,10 @@ func (rn *runner) sites(rng *rand.Rand, nBursts int) []*site {
 	// write or scan below (the ones that can own the key/value store's batch / iterator gate);
 	// their pure read operations are enumerated by the memory-backed variant of the same backend
 	opSkipped := func(i int) bool {
-		if rn.def.KV == "" || tierThorough() {
+		if i < rn.def.FromOp || (rn.def.ToOp > 0 && i >= rn.def.ToOp) {
+			return true
+		}
+		if (rn.def.KV == "" && !strings.HasPrefix(rn.def.Name, "compS")) || tierThorough() {
 			return false
 		}
 		for _, cl := range rn.learn.Calls[i] {
@@ -623,12 +682,21 @@ func (rn *runner) sites(rng *rand.Rand, nBursts int) []*site {
 		if opSkipped(i) {
 			continue
 		}
+		run := 0 // length of the current run of calls of one kind (layer, op)
 		for j := int64(0); j < n; j++ {
-			add(&site{Op: i, Faults: []faultSpec{{Off: j, Mode: inject.Error}}})
 			var cl inject.Call
 			if int(j) < len(rn.learn.Calls[i]) {
 				cl = rn.learn.Calls[i][j]
 			}
+			if j > 0 && int(j) < len(rn.learn.Calls[i]) && rn.learn.Calls[i][j-1].Layer == cl.Layer && rn.learn.Calls[i][j-1].Op == cl.Op {
+				run++
+			} else {
+				run = 0
+			}
+			if rn.def.Long && !tierThorough() && run%8 != 0 {
+				continue // quick tier: every 8th of the compaction's ~100 consecutive index lookups
+			}
+			add(&site{Op: i, Faults: []faultSpec{{Off: j, Mode: inject.Error}}})
 			if cl.Write || cl.Op == "EnumerateBlobs" {
 				add(&site{Op: i, Faults: []faultSpec{{Off: j, Mode: inject.ErrorAfterEffect}}})
 			}
